@@ -938,4 +938,357 @@ theorem rdSpTab3_ok (io : DblIO D) (hc : ∀ d, io.toCount d < two64) (vd : Bool
   simp only [List.all_eq_true, decide_eq_true_eq]
   exact fun t ht e he => (this.2 t ht).2 e he
 
+/-- **every stream, MDP::Experience**: whatever the input, a successful read yields a well-formed experience
+    (shapes, counts in range, `visitsSum` consistent with the visits table). -/
+theorem rdDExp_ok (io : DblIO D) (S A : Nat) (s s' : Stream) (e : DExp D) (h : rdDExp io S A s = .ok e s') :
+    dexpValidB S A e = true := by
+  simp only [rdDExp, bind_ok_iff, pure_ok_iff] at h
+  obtain ⟨t, s1, ht, v, s2, hv, r, s3, hr, m, s4, hm, rfl, _⟩ := h
+  have h1 := rdTab3_ok A S S _ _ v hv
+  simp [dexpValidB, rdN_ok _ _ t ht, h1.1, h1.2, rdMat_ok io S A _ _ r hr, rdMat_ok io S A _ _ m hm]
+
+theorem rdSExp_ok (io : DblIO D) (hc : ∀ d, io.toCount d < two64) (vd : Bool) (S A : Nat) (s s' : Stream) (e : SExp D)
+    (h : rdSExp io vd S A s = .ok e s') : sexpValidB S A e = true := by
+  simp only [rdSExp, bind_ok_iff, pure_ok_iff] at h
+  obtain ⟨t, s1, ht, v, s2, hv, r, s3, hr, m, s4, hm, rfl, _⟩ := h
+  have h1 := rdSpTab3_ok io hc vd A S S _ _ v hv
+  simp [sexpValidB, rdN_ok _ _ t ht, h1.1, h1.2, rdSpMat_ok io S A _ _ r hr, rdSpMat_ok io S A _ _ m hm]
+
+theorem rdDModel_ok (io : DblIO D) (S A : Nat) (s s' : Stream) (m : DModel D) (h : rdDModel io S A s = .ok m s') :
+    dmodelValidB io S A m = true := by
+  simp only [rdDModel, bind_ok_iff] at h
+  obtain ⟨d, s1, _, h⟩ := h
+  split at h
+  · simp at h
+  · rename_i hd
+    simp only [bind_ok_iff, need_ok_iff, pure_ok_iff] at h
+    obtain ⟨t, s2, ht, _, s3, ⟨hp, _⟩, r, s4, hr, rfl, _⟩ := h
+    simp at hd
+    simp [dmodelValidB, hd, rdMat3_ok io A S S _ _ t ht, hp, rdMat_ok io S A _ _ r hr]
+
+theorem rdSModel_ok (io : DblIO D) (S A : Nat) (s s' : Stream) (m : SModel D) (h : rdSModel io S A s = .ok m s') :
+    smodelValidB io S A m = true := by
+  simp only [rdSModel, bind_ok_iff] at h
+  obtain ⟨d, s1, _, h⟩ := h
+  split at h
+  · simp at h
+  · rename_i hd
+    simp only [bind_ok_iff, need_ok_iff, pure_ok_iff] at h
+    obtain ⟨t, s2, ht, _, s3, ⟨hp, _⟩, r, s4, hr, rfl, _⟩ := h
+    simp at hd
+    simp [smodelValidB, hd, rdSpMat3_ok io A S S _ _ t ht, hp, rdSpMat_ok io S A _ _ r hr]
+
+theorem rdPD_ok {M} (io : DblIO D) (rdM : Rd M) (vM : M → Bool) (hM : ∀ s a s', rdM s = .ok a s' → vM a = true)
+    (S A O : Nat) (s s' : Stream) (x : M × List (Mat D)) (h : rdPD io rdM S A O s = .ok x s') :
+    pdValidB io vM S A O x = true := by
+  simp only [rdPD, bind_ok_iff, need_ok_iff, pure_ok_iff] at h
+  obtain ⟨m, s1, hm, o, s2, ho, _, s3, ⟨hp, _⟩, rfl, _⟩ := h
+  simp [pdValidB, hM _ _ _ hm, rdMat3_ok io A S O _ _ o ho, hp]
+
+theorem rdPS_ok {M} (io : DblIO D) (rdM : Rd M) (vM : M → Bool) (hM : ∀ s a s', rdM s = .ok a s' → vM a = true)
+    (S A O : Nat) (s s' : Stream) (x : M × List (SpMat D)) (h : rdPS io rdM S A O s = .ok x s') :
+    psValidB io vM S A O x = true := by
+  simp only [rdPS, bind_ok_iff, need_ok_iff, pure_ok_iff] at h
+  obtain ⟨m, s1, hm, o, s2, ho, _, s3, ⟨hp, _⟩, rfl, _⟩ := h
+  simp [psValidB, hM _ _ _ hm, rdSpMat3_ok io A S O _ _ o ho, hp]
+
+theorem rdMPol_ok (io : DblIO D) (S A : Nat) (s s' : Stream) (m : Mat D) (h : rdMPol io S A s = .ok m s') :
+    mpolValidB io S A m = true := by
+  simp only [rdMPol, bind_ok_iff, need_ok_iff, pure_ok_iff] at h
+  obtain ⟨m', s1, hm, _, s2, ⟨hp, _⟩, rfl, _⟩ := h
+  simp [mpolValidB, rdMat_ok io S A _ _ m' hm, hp]
+
+/-! every stream, POMDP::Policy: the loop invariant -/
+
+def lastLenFrom {α} : Nat → List (List α) → Nat
+  | prev, [] => prev
+  | _, h :: hs => lastLenFrom h.length hs
+
+theorem horizonsValidB_snoc (S A O : Nat) : ∀ (hs : List (VList D)) (prev : Nat) (l : VList D),
+    horizonsValidB S A O prev (hs ++ [l]) =
+      (horizonsValidB S A O prev hs && (!l.isEmpty && l.all (entryValidB S A O (lastLenFrom prev hs))))
+  | [], prev, l => by simp [horizonsValidB, lastLenFrom]
+  | h :: hs, prev, l => by
+    have ih := horizonsValidB_snoc S A O hs h.length l
+    have hl : lastLenFrom prev (h :: hs) = lastLenFrom h.length hs := rfl
+    simp only [List.cons_append, horizonsValidB, ih, hl, Bool.and_assoc]
+
+theorem lastLenFrom_ne_zero (S A O : Nat) : ∀ (hs : List (VList D)) (prev : Nat), prev ≠ 0 →
+    horizonsValidB S A O prev hs = true → lastLenFrom prev hs ≠ 0
+  | [], prev, hp, _ => by simpa [lastLenFrom] using hp
+  | h :: hs, prev, _, hv => by
+    simp only [horizonsValidB, Bool.and_eq_true] at hv
+    have hne : h.length ≠ 0 := by
+      intro h0
+      have : h = [] := List.length_eq_zero_iff.mp h0
+      simp [this] at hv
+    have hl : lastLenFrom prev (h :: hs) = lastLenFrom h.length hs := rfl
+    rw [hl]
+    exact lastLenFrom_ne_zero S A O hs h.length hne hv.2
+
+theorem lastLen_cons {α} : ∀ (hs : List (List α)) (x : List α), lastLen (x :: hs) = lastLenFrom x.length hs
+  | [], x => by simp [lastLen, lastLenFrom]
+  | h :: hs, x => by
+    have ih := lastLen_cons hs h
+    simp only [lastLen, List.getLast?_cons_cons] at *
+    rw [ih]; rfl
+
+theorem lastLen_vf0_append (io : DblIO D) (S : Nat) (hs : List (VList D)) : lastLen (vf0 io S ++ hs) = lastLenFrom 1 hs := by
+  simp only [vf0, List.cons_append, List.nil_append]
+  rw [lastLen_cons]; rfl
+
+theorem rdLink_ok (oldH : Nat) (h0 : oldH ≠ 0) (s s' : Stream) (o : Nat) (h : rdLink oldH s = .ok o s') : o < oldH := by
+  simp only [rdLink, bind_ok_iff, need_ok_iff, pure_ok_iff] at h
+  obtain ⟨o', s1, _, _, s2, ⟨hc, _⟩, rfl, _⟩ := h
+  simp [h0] at hc
+  exact hc
+
+theorem rdEntry_ok (io : DblIO D) (S A O oldH : Nat) (h0 : oldH ≠ 0) (s s' : Stream) (e : VEntry D)
+    (h : rdEntry io S A O oldH s = .ok e s') : entryValidB S A O oldH e = true := by
+  simp only [rdEntry, bind_ok_iff, need_ok_iff, pure_ok_iff, decide_eq_true_eq] at h
+  obtain ⟨vals, s1, hv, a, s2, _, _, s3, ⟨ha, _⟩, obs, s4, hobs, rfl, _⟩ := h
+  have h1 := rep_ok (rdD io) (fun _ => True) (fun _ _ _ _ => trivial) S s vals s1 hv
+  have h2 := rep_ok (rdLink oldH) (· < oldH) (fun s a s' h => rdLink_ok oldH h0 s s' a h) O _ obs _ hobs
+  simp only [entryValidB, Bool.and_eq_true, beq_iff_eq, decide_eq_true_eq, List.all_eq_true]
+  exact ⟨⟨⟨h1.1, ha⟩, h2.1⟩, h2.2⟩
+
+/-- loop invariant: the value function built so far is the horizon-0 list followed by valid horizons; while a
+    horizon is being filled its entries so far are valid against `oldH`, the size of the list below it -/
+def PolInv [DecidableEq D] (io : DblIO D) (S A O : Nat) (vf : VF D) (newH : Bool) (oldH : Nat) : Prop :=
+  if newH then ∃ hs, vf = vf0 io S ++ hs ∧ horizonsValidB S A O 1 hs = true
+  else ∃ hs cur, vf = vf0 io S ++ hs ++ [cur] ∧ horizonsValidB S A O 1 hs = true ∧ oldH = lastLenFrom 1 hs ∧
+    cur.all (entryValidB S A O oldH) = true
+
+theorem polLoop_ok [DecidableEq D] (io : DblIO D) (S A O : Nat) :
+    ∀ (f : Nat) (vf : VF D) (newH : Bool) (oldH : Nat) (s s' : Stream) (y : VF D),
+      PolInv io S A O vf newH oldH → polLoop io S A O f vf newH oldH s = .ok y s' → ppolValidB io S A O y = true
+  | 0, _, _, _, _, _, _, _, h => by simp [polLoop] at h
+  | f + 1, vf, true, oldH, s, s', y, hinv, h => by
+    simp only [PolInv, if_true] at hinv
+    obtain ⟨hs, rfl, hv⟩ := hinv
+    simp only [polLoop] at h
+    split at h
+    · simp only [R.ok.injEq] at h
+      rw [← h.1]
+      simp [vf0, ppolValidB, hv]
+    · refine polLoop_ok io S A O f _ false _ s s' y ?_ h
+      simp only [PolInv, Bool.false_eq_true, if_false]
+      exact ⟨hs, [], rfl, hv, lastLen_vf0_append io S hs, by simp⟩
+  | f + 1, vf, false, oldH, s, s', y, hinv, h => by
+    simp only [PolInv, Bool.false_eq_true, if_false] at hinv
+    obtain ⟨hs, cur, rfl, hv, hold, hcur⟩ := hinv
+    simp only [polLoop] at h
+    split at h
+    · simp at h
+    · rename_i e s1 he
+      have h0 : oldH ≠ 0 := by rw [hold]; exact lastLenFrom_ne_zero S A O hs 1 (by decide) hv
+      have hent := rdEntry_ok io S A O oldH h0 s s1 e he
+      rw [appendToLast_snoc] at h
+      cases hb : (atSign s1).1 with
+      | false =>
+        have : atSign s1 = (false, (atSign s1).2) := by rw [← hb]
+        rw [this] at h
+        refine polLoop_ok io S A O f _ false oldH _ s' y ?_ h
+        simp only [PolInv, Bool.false_eq_true, if_false]
+        exact ⟨hs, cur ++ [e], rfl, hv, hold, by simp [List.all_append, hcur, hent]⟩
+      | true =>
+        have : atSign s1 = (true, (atSign s1).2) := by rw [← hb]
+        rw [this] at h
+        refine polLoop_ok io S A O f _ true oldH _ s' y ?_ h
+        simp only [PolInv, if_true]
+        refine ⟨hs ++ [cur ++ [e]], by simp [List.append_assoc], ?_⟩
+        rw [horizonsValidB_snoc, ← hold]
+        simp [hv, List.all_append, hcur, hent]
+
+/-- **every stream, POMDP::Policy**: whatever the input, a successful read yields a coherent policy — horizon 0 as
+    `makeValueFunction` builds it, every other list non-empty, every entry with S values, an action below A and O
+    links that all point into the list below. -/
+theorem rdPPol_ok [DecidableEq D] (io : DblIO D) (S A O : Nat) (s s' : Stream) (y : VF D)
+    (h : rdPPol io S A O s = .ok y s') : ppolValidB io S A O y = true := by
+  refine polLoop_ok io S A O _ (vf0 io S) true 1 s s' y ?_ h
+  simp only [PolInv, if_true]
+  exact ⟨[], by simp, by simp [horizonsValidB]⟩
+
+/-! ### failed loads are atomic; successful loads are valid — for EVERY token list -/
+
+/-- `operator>>` as a whole: either the stream stays good and the destination now holds a valid object, or a failure
+    is signalled (failbit or exception) and the destination is exactly what it was. -/
+theorem failed_read_atomic {α} (rd : Rd α) (valid : α → Bool) (hok : ∀ s a s', rd s = .ok a s' → valid a = true)
+    (dest : α) (s : Stream) :
+    ((load rd dest s).sig = none ∧ valid (load rd dest s).dest = true) ∨
+    ((load rd dest s).sig ≠ none ∧ (load rd dest s).dest = dest) := by
+  unfold load
+  cases h : rd s with
+  | ok y rest => exact Or.inl ⟨rfl, hok s y rest h⟩
+  | bad e => exact Or.inr ⟨by simp, rfl⟩
+
+/-- a load of what was written replaces the destination by the written object and leaves what follows unread -/
+theorem load_roundtrip {α} (rd : Rd α) (wr : α → Stream) (x : α) (h : RoundTrips rd wr x) (dest : α) (rest : Stream) :
+    load rd dest (wr x ++ rest) = ⟨x, none, rest⟩ := by
+  simp [load, h rest]
+
+theorem failed_read_atomic_dexp (io : DblIO D) (S A : Nat) (dest : DExp D) (s : Stream) :
+    ((load (rdDExp io S A) dest s).sig = none ∧ dexpValidB S A (load (rdDExp io S A) dest s).dest = true) ∨
+    ((load (rdDExp io S A) dest s).sig ≠ none ∧ (load (rdDExp io S A) dest s).dest = dest) :=
+  failed_read_atomic _ _ (fun s a s' h => rdDExp_ok io S A s s' a h) dest s
+
+theorem failed_read_atomic_sexp (io : DblIO D) (hc : ∀ d, io.toCount d < two64) (vd : Bool) (S A : Nat) (dest : SExp D) (s : Stream) :
+    ((load (rdSExp io vd S A) dest s).sig = none ∧ sexpValidB S A (load (rdSExp io vd S A) dest s).dest = true) ∨
+    ((load (rdSExp io vd S A) dest s).sig ≠ none ∧ (load (rdSExp io vd S A) dest s).dest = dest) :=
+  failed_read_atomic _ _ (fun s a s' h => rdSExp_ok io hc vd S A s s' a h) dest s
+
+theorem failed_read_atomic_dmodel (io : DblIO D) (S A : Nat) (dest : DModel D) (s : Stream) :
+    ((load (rdDModel io S A) dest s).sig = none ∧ dmodelValidB io S A (load (rdDModel io S A) dest s).dest = true) ∨
+    ((load (rdDModel io S A) dest s).sig ≠ none ∧ (load (rdDModel io S A) dest s).dest = dest) :=
+  failed_read_atomic _ _ (fun s a s' h => rdDModel_ok io S A s s' a h) dest s
+
+theorem failed_read_atomic_smodel (io : DblIO D) (S A : Nat) (dest : SModel D) (s : Stream) :
+    ((load (rdSModel io S A) dest s).sig = none ∧ smodelValidB io S A (load (rdSModel io S A) dest s).dest = true) ∨
+    ((load (rdSModel io S A) dest s).sig ≠ none ∧ (load (rdSModel io S A) dest s).dest = dest) :=
+  failed_read_atomic _ _ (fun s a s' h => rdSModel_ok io S A s s' a h) dest s
+
+/-- POMDP::Model<M> for any underlying reader whose successes are valid (instantiate `rdM` with `rdDModel` / `rdSModel`) -/
+theorem failed_read_atomic_pd {M} (io : DblIO D) (rdM : Rd M) (vM : M → Bool) (hM : ∀ s a s', rdM s = .ok a s' → vM a = true)
+    (S A O : Nat) (dest : M × List (Mat D)) (s : Stream) :
+    ((load (rdPD io rdM S A O) dest s).sig = none ∧ pdValidB io vM S A O (load (rdPD io rdM S A O) dest s).dest = true) ∨
+    ((load (rdPD io rdM S A O) dest s).sig ≠ none ∧ (load (rdPD io rdM S A O) dest s).dest = dest) :=
+  failed_read_atomic _ _ (fun s a s' h => rdPD_ok io rdM vM hM S A O s s' a h) dest s
+
+theorem failed_read_atomic_ps {M} (io : DblIO D) (rdM : Rd M) (vM : M → Bool) (hM : ∀ s a s', rdM s = .ok a s' → vM a = true)
+    (S A O : Nat) (dest : M × List (SpMat D)) (s : Stream) :
+    ((load (rdPS io rdM S A O) dest s).sig = none ∧ psValidB io vM S A O (load (rdPS io rdM S A O) dest s).dest = true) ∨
+    ((load (rdPS io rdM S A O) dest s).sig ≠ none ∧ (load (rdPS io rdM S A O) dest s).dest = dest) :=
+  failed_read_atomic _ _ (fun s a s' h => rdPS_ok io rdM vM hM S A O s s' a h) dest s
+
+theorem failed_read_atomic_mpol (io : DblIO D) (S A : Nat) (dest : Mat D) (s : Stream) :
+    ((load (rdMPol io S A) dest s).sig = none ∧ mpolValidB io S A (load (rdMPol io S A) dest s).dest = true) ∨
+    ((load (rdMPol io S A) dest s).sig ≠ none ∧ (load (rdMPol io S A) dest s).dest = dest) :=
+  failed_read_atomic _ _ (fun s a s' h => rdMPol_ok io S A s s' a h) dest s
+
+theorem failed_read_atomic_ppol [DecidableEq D] (io : DblIO D) (S A O : Nat) (dest : VF D) (s : Stream) :
+    ((load (rdPPol io S A O) dest s).sig = none ∧ ppolValidB io S A O (load (rdPPol io S A O) dest s).dest = true) ∨
+    ((load (rdPPol io S A O) dest s).sig ≠ none ∧ (load (rdPPol io S A O) dest s).dest = dest) :=
+  failed_read_atomic _ _ (fun s a s' h => rdPPol_ok io S A O s s' a h) dest s
+
+/-- prefix behaviour: every prefix (in particular every truncation) of a written object either fails, leaving the
+    destination alone, or loads a valid object (a cut inside the last number can legitimately parse). -/
+theorem prefix_behaviour {α} (rd : Rd α) (wr : α → Stream) (valid : α → Bool)
+    (hok : ∀ s a s', rd s = .ok a s' → valid a = true) (x dest : α) (k : Nat) :
+    ((load rd dest ((wr x).take k)).sig ≠ none ∧ (load rd dest ((wr x).take k)).dest = dest) ∨
+    ((load rd dest ((wr x).take k)).sig = none ∧ valid (load rd dest ((wr x).take k)).dest = true) :=
+  (failed_read_atomic rd valid hok dest ((wr x).take k)).symm
+
+/-! ### the instance the driver runs, and the facts read off the source (`AITB.Gen.IOPrec`) -/
+
+/-- the trusted classical fact, as a hypothesis: at `max_digits10` or more significant digits every double is read back exactly -/
+def Dbl17 (io : DblIO D) : Prop := ∀ p, 17 ≤ p → ∀ d, RT io p d
+
+/-- the writer precisions found in the source by tools/extract_c17.py -/
+def genPrec : Prec := ⟨AITB.Gen.IOPrec.scalar, AITB.Gen.IOPrec.dense, AITB.Gen.IOPrec.sparse, AITB.Gen.IOPrec.pomdpPolicy⟩
+
+/-- obligation over the regenerated module: the shared writers of src/Utils/IO.cpp print at `max_digits10` -/
+theorem IOPrec_utils_ge_17 : 17 ≤ AITB.Gen.IOPrec.scalar ∧ 17 ≤ AITB.Gen.IOPrec.vector ∧ 17 ≤ AITB.Gen.IOPrec.dense ∧
+    17 ≤ AITB.Gen.IOPrec.sparse := by decide
+
+/-- obligation: the POMDP policy writer is either the code as first read (stream default, 6 digits: finding C17-1)
+    or prints at 17 digits or more — any other value is a new defect -/
+theorem IOPrec_pomdpPolicy : AITB.Gen.IOPrec.pomdpPolicy = 6 ∨ 17 ≤ AITB.Gen.IOPrec.pomdpPolicy := by decide
+
+/-- obligation: every `operator>>` assigns its destination only after the last failure exit -/
+theorem IOPrec_commit_last : AITB.Gen.IOPrec.commitLast.all (·.2) = true := by decide
+
+theorem ratIO_noAt (tol : Rat) : NoAt (ratIO tol) := fun _ => rfl
+theorem ratIO_toCount_lt (tol : Rat) : ∀ d, (ratIO tol).toCount d < two64 := by
+  intro d
+  simp only [ratIO, toCountQ]
+  split <;> exact Nat.mod_lt _ (by decide)
+
+/-- with the trusted fact, the source's precisions give the full round trip of dense models … -/
+theorem roundtrip_dmodel_src (io : DblIO D) (h17 : Dbl17 io) (S A : Nat) (m : DModel D) (hv : dmodelValidB io S A m = true) :
+    RoundTrips (rdDModel io S A) (wrDModel io genPrec) m :=
+  roundtrip_dmodel io genPrec S A m hv (h17 _ IOPrec_utils_ge_17.1 _)
+    (fun _ _ _ _ _ _ => h17 _ IOPrec_utils_ge_17.2.2.1 _) (fun _ _ _ _ => h17 _ IOPrec_utils_ge_17.2.2.1 _)
+
+theorem roundtrip_smodel_src (io : DblIO D) (h17 : Dbl17 io) (S A : Nat) (m : SModel D) (hv : smodelValidB io S A m = true)
+    (hdimS : S * S < two64) (hdimA : S * A < two64) : RoundTrips (rdSModel io S A) (wrSModel io genPrec) m :=
+  roundtrip_smodel io genPrec S A m hv hdimS hdimA (h17 _ IOPrec_utils_ge_17.1 _)
+    (fun _ _ _ _ => h17 _ IOPrec_utils_ge_17.2.2.2 _) (fun _ _ => h17 _ IOPrec_utils_ge_17.2.2.2 _)
+
+theorem roundtrip_dexp_src (io : DblIO D) (h17 : Dbl17 io) (S A : Nat) (e : DExp D) (hv : dexpValidB S A e = true) :
+    RoundTrips (rdDExp io S A) (wrDExp io genPrec) e :=
+  roundtrip_dexp io genPrec S A e hv (fun _ _ _ _ => h17 _ IOPrec_utils_ge_17.2.2.1 _) (fun _ _ _ _ => h17 _ IOPrec_utils_ge_17.2.2.1 _)
+
+theorem roundtrip_mpol_src (io : DblIO D) (h17 : Dbl17 io) (S A : Nat) (m : Mat D) (hv : mpolValidB io S A m = true) :
+    RoundTrips (rdMPol io S A) (wrMPol io genPrec) m :=
+  roundtrip_mpol io genPrec S A m hv (fun _ _ _ _ => h17 _ IOPrec_utils_ge_17.2.2.1 _)
+
+/-- FULL STATEMENT (holds once fix C17-2 is in: `sparseTableViaDouble = false`):
+      ∀ e, sexpValidB S A e → RoundTrips (rdSExp io IOPrec.sparseTableViaDouble S A) (wrSExp io genPrec) e.
+    Proved form: with the flag as a hypothesis, or (below) with every count surviving the detour through `double`. -/
+theorem roundtrip_sexp_src (io : DblIO D) (h17 : Dbl17 io) (hfix : AITB.Gen.IOPrec.sparseTableViaDouble = false)
+    (S A : Nat) (e : SExp D) (hv : sexpValidB S A e = true) (hdimS : S * S < two64) (hdimA : S * A < two64) :
+    RoundTrips (rdSExp io AITB.Gen.IOPrec.sparseTableViaDouble S A) (wrSExp io genPrec) e := by
+  have hv' := hv
+  simp only [sexpValidB, Bool.and_eq_true, List.all_eq_true, decide_eq_true_eq] at hv'
+  refine roundtrip_sexp io genPrec _ S A e hv hdimS hdimA ?_ (fun _ _ => h17 _ IOPrec_utils_ge_17.2.2.2 _) (fun _ _ => h17 _ IOPrec_utils_ge_17.2.2.2 _)
+  intro t ht x hx
+  exact ⟨hv'.1.1.1.2 t ht x hx, fun h => by rw [hfix] at h; cases h⟩
+
+theorem roundtrip_sexp_src_partial (io : DblIO D) (h17 : Dbl17 io) (S A : Nat) (e : SExp D) (hv : sexpValidB S A e = true)
+    (hdimS : S * S < two64) (hdimA : S * A < two64)
+    (hc : ∀ t ∈ e.visits, ∀ x ∈ t, ∃ d, io.scanD (printN x.v) = some (d, []) ∧ io.toCount d = x.v) :
+    RoundTrips (rdSExp io AITB.Gen.IOPrec.sparseTableViaDouble S A) (wrSExp io genPrec) e := by
+  have hv' := hv
+  simp only [sexpValidB, Bool.and_eq_true, List.all_eq_true, decide_eq_true_eq] at hv'
+  refine roundtrip_sexp io genPrec _ S A e hv hdimS hdimA ?_ (fun _ _ => h17 _ IOPrec_utils_ge_17.2.2.2 _) (fun _ _ => h17 _ IOPrec_utils_ge_17.2.2.2 _)
+  intro t ht x hx
+  exact ⟨hv'.1.1.1.2 t ht x hx, fun _ => hc t ht x hx⟩
+
+/-- FULL STATEMENT (holds once fix C17-1 is in: `pomdpPolicy ≥ 17`):
+      ∀ vf, ppolValidB io S A O vf → RoundTrips (rdPPol io S A O) (wrPPol io genPrec) vf.
+    Proved form: with the precision fact as a hypothesis. -/
+theorem roundtrip_ppol_src [DecidableEq D] (io : DblIO D) (hat : NoAt io) (h17 : Dbl17 io) (hfix : 17 ≤ AITB.Gen.IOPrec.pomdpPolicy)
+    (S A O : Nat) (vf : VF D) (hv : ppolValidB io S A O vf = true) (hA : A ≤ two64) (hlen : ∀ l ∈ vf, l.length ≤ two64) :
+    RoundTrips (rdPPol io S A O) (wrPPol io genPrec) vf :=
+  roundtrip_ppol io hat genPrec S A O vf hv hA hlen (fun _ _ _ _ _ _ => h17 _ hfix _)
+
+/-! ### witnesses (kernel evaluation of the driver's own instance; `decide +kernel` adds no axiom) -/
+
+/-- the double nearest 1/3 -/
+def third : Rat := (6004799503160661 : Rat) / (18014398509481984 : Rat)
+
+/-- test: the hypothesis `RT` is satisfiable at 17 digits by a non-trivial value … -/
+theorem rt17_third : RT (ratIO 0) 17 third := by unfold RT; decide +kernel
+/-- … and false at the 6 digits the POMDP policy writer uses: `0.333333` is not the double nearest 1/3 -/
+theorem rt6_third_counterexample : ¬ RT (ratIO 0) 6 third := by unfold RT; decide +kernel
+
+/-- the policy of the harness's witness case 0 -/
+def vfWitness : VF Rat := [[nilEntry (ratIO 0) 2], [⟨[333333 / 1000000, 0], 0, [0, 0]⟩, ⟨[third, 0], 1, [0, 0]⟩]]
+/-- does reading what was written at precisions `pr` give back `vf`? -/
+def reloadsB (pr : Prec) (vf : VF Rat) : Bool :=
+  match rdPPol (ratIO 0) 2 2 2 (wrPPol (ratIO 0) pr vf) with
+  | .ok y _ => decide (y = vf)
+  | .bad _ => false
+/-- it is a valid policy that does not survive the writer at 6 digits (at 17 it does, by `roundtrip_ppol`) -/
+theorem ppol_prec6_counterexample :
+    ppolValidB (ratIO 0) 2 2 2 vfWitness = true ∧ reloadsB ⟨17, 17, 17, 6⟩ vfWitness = false := by decide +kernel
+
+/-- a visit count of 2^53 + 1 does not survive the detour through `double`, and does survive an integer read -/
+theorem count_via_double_counterexample : ¬ CountRT (ratIO 0) true 9007199254740993 := by
+  unfold CountRT
+  intro h
+  obtain ⟨d, h1, h2⟩ := h.2 rfl
+  have : (ratIO 0).scanD (printN 9007199254740993) = some (9007199254740992, []) := by decide +kernel
+  rw [this] at h1
+  injection h1 with h1
+  injection h1 with h1 _
+  subst h1
+  revert h2
+  decide +kernel
+theorem count_integer_example : CountRT (ratIO 0) false 9007199254740993 := ⟨by decide, fun h => by cases h⟩
+
+/-- test: a non-trivial object satisfying every hypothesis of `roundtrip_dmodel` -/
+example : dmodelValidB (ratIO (1/1000000)) 2 1 ⟨third, [[[1/4, 3/4], [1, 0]]], [[1/2], [-3]]⟩ = true := by decide +kernel
+example : sexpValidB 2 1 (⟨3, [[⟨0, 1, 2⟩, ⟨1, 1, 1⟩]], [[2], [1]], [⟨0, 0, third⟩], []⟩ : SExp Rat) = true := by decide +kernel
+
 end AITB.Codec
